@@ -240,10 +240,12 @@ def render_second(case, rname, cfg, src):
                 c['general']['copy-theme-extras'] = False
                 doc.userdata['jobname'] = 'doc'
                 doc.userdata['working-dir'] = d
-                for (sec, key), val in cfg.items():
-                    c[sec][key] = val
-                if shared is not None and sub == 'one':
-                    c['files']['filename'] = 'whole'
+                if shared is None or sub == 'one':
+                    for (sec, key), val in cfg.items():
+                        c[sec][key] = val
+                if shared is not None:
+                    # the user configured everything once; only the template differs between the two renderings
+                    c['files']['filename'] = 'whole' if sub == 'one' else cfg[('files', 'filename')]
                 tex.jobname = 'doc'
                 tex.input(text)
                 tex.parse()
